@@ -272,12 +272,17 @@ def mon_c20(spec, run):
         r_call = [t for s, _, t in recvs if s < c["call"]]
         s_all = [t for _, _, t in sends]
 
-        def is_recent_run(sub, full_before, full_all, full_call):
+        # lines that arrived in ONE read are logged one by one as the reader handles them: all lines of the most recent read before the request
+        # may still be unlogged (e.g. when the log is requested from inside the callback of the first of them)
+        rs_call = [sq for sq, _, _ in recvs if sq < c["call"]]
+        chunk_slack = sum(1 for sq in rs_call if sq == rs_call[-1]) if rs_call else 0
+
+        def is_recent_run(sub, full_before, full_all, full_call, slack=0):
             if not sub:
                 return True
             n = len(sub)
-            # candidates: suffixes of prefixes of full_all ending between (len(full_call)-2 .. len(full_before)+1) to allow in-flight entries
-            for end in range(max(0, len(full_call) - 2), min(len(full_all), len(full_before) + 1) + 1):
+            # candidates: suffixes of prefixes of full_all ending between (len(full_call)-2-slack .. len(full_before)+1) to allow in-flight entries
+            for end in range(max(0, len(full_call) - 2 - slack), min(len(full_all), len(full_before) + 1) + 1):
                 if full_all[max(0, end - n):end] == sub:
                     return True
                 # an entry logged whose write never happened (port closed / in flight at the end)
@@ -288,12 +293,22 @@ def mon_c20(spec, run):
         if not is_recent_run(ls, s_before, s_all, s_call):
             bad.append(("sends", f"Send entries {ls[-4:]} are not the most recent transmissions {s_before[-4:]} in order"))
             break
-        if not is_recent_run(lr, r_before, [t for _, _, t in recvs], r_call):
+        if not is_recent_run(lr, r_before, [t for _, _, t in recvs], r_call, chunk_slack):
             bad.append(("receives", f"Received entries {lr[-4:]} are not the most recent received lines {r_before[-4:]} in order"))
             break
-        if N > 0 and len(ents) < min(N, len(s_call) + len(r_call) - 2):
+        if N > 0 and len(ents) < min(N, len(s_call) + len(r_call) - 2 - chunk_slack):
             bad.append(("short", f"log holds {len(ents)} entries although {len(s_call) + len(r_call)} lines had crossed the wire when the log was requested (size {N})"))
             break
+        # requested from inside a message callback: the line being delivered has been received, so it is listed (two later entries may have
+        # pushed it out of a very small ring, hence N >= 3)
+        if str(c["ctx"]).startswith("cb") and N >= 3:
+            cur = [e for e in tr if e["k"] == "msg_cb" and e["seq"] < c["call"] and e["th"] == c["th"]]
+            if cur:
+                e0 = cur[-1]
+                text = f"@{e0['su']}:{e0['fn']}={e0['val']}" if e0["su"] is not None else ("@" + e0["status"] if e0["status"] != "OK" else None)
+                if text is not None and ("Received", text) not in ents:
+                    bad.append(("delivered-not-listed", f"the log requested from inside the callback for {text!r} does not list that line as received: {[t for k, t in ents if k == 'Received'][-3:]}"))
+                    break
         # causality: a reply is never listed before the command that caused it
         causes = {}
         for e in tr:
@@ -867,6 +882,9 @@ def mon_c14(spec, run):
 def mon_c17(spec, run):
     bad = []
     tr = run.trace
+    k2 = max([i for i, e in enumerate(tr) if e["k"] == "attempt2"], default=None)
+    if k2 is not None:
+        tr = tr[k2:]          # earlier runs of the check on the same object are not judged
     if not api_calls(tr, "connection_check"):
         return bad
     rets = api_rets(tr, "connection_check")
@@ -918,7 +936,7 @@ def mon_c17(spec, run):
     opened = any(e["k"] == "open" for e in tr) and not spec.get("open_fails")
     if opened and not any(e["k"] == "port_close" and e["seq"] < r0["seq"] for e in tr):
         bad.append(("port-open", "the temporary connection was not closed when connection_check() ended"))
-    for role in ("R", "S"):
+    for role in (("R", "S") if k2 is None else ("R2", "S2")):
         started = any(e["th"] == role for e in tr)
         ex = [e for e in tr if e["k"] == "thread_exit" and e["th"] == role]
         if started and not ex:
